@@ -127,6 +127,23 @@ func sse(X *mat.Dense, ys, w, beta []float64) *big.Float {
 	return s
 }
 
+// norm2 is the Euclidean norm, scaled so that tiny or huge entries neither
+// underflow nor overflow when squared.
+func norm2(v []float64) float64 {
+	m := 0.0
+	for _, x := range v {
+		m = math.Max(m, math.Abs(x))
+	}
+	if m == 0 || math.IsInf(m, 0) {
+		return m
+	}
+	s := 0.0
+	for _, x := range v {
+		s += (x / m) * (x / m)
+	}
+	return m * math.Sqrt(s)
+}
+
 // LSCase is one LinearLeastSquares call.
 type LSCase struct {
 	Xs    []float64 `json:"xs"`
@@ -194,7 +211,12 @@ var checkLS = ev.Register("least-squares", func(c *LSCase) ev.Outcome {
 	nf := float64(n)
 	for j := 0; j < p; j++ {
 		g := ref.BI(0)
-		scale := 0.0
+		// A backward-stable solver (normal equations on a well-conditioned design, QR, SVD)
+		// perturbs each column of the design normwise, not row by row, so the rounding error
+		// of the gradient is bounded through the weighted 2-norms of the column and of the
+		// magnitudes that make up the residual, not through their row-wise products (which
+		// are far smaller when the large y sit where the basis function is nearly 0).
+		col, mag := make([]float64, n), make([]float64, n)
 		for i := 0; i < n; i++ {
 			r := ref.B(c.Ys[i])
 			abs := math.Abs(c.Ys[i])
@@ -203,8 +225,10 @@ var checkLS = ev.Register("least-squares", func(c *LSCase) ev.Outcome {
 				abs += math.Abs(X.At(i, k) * beta[k])
 			}
 			g = ref.Add(g, ref.Mul(ref.Mul(ref.B(wi(i)), ref.B(X.At(i, j))), r))
-			scale += wi(i) * math.Abs(X.At(i, j)) * abs
+			sw := math.Sqrt(wi(i))
+			col[i], mag[i] = sw*X.At(i, j), sw*abs
 		}
+		scale := norm2(col) * norm2(mag)
 		tol := 64 * nf * ref.Eps * scale * math.Sqrt(cond)
 		if gf := math.Abs(ref.F64(g)); !(gf <= tol) {
 			return ev.Fail("normal equation %d (%s): weighted residual has inner product %.3g with the basis function (tol %.3g, cond %.3g)", j, c.Basis[j], gf, tol, cond)
